@@ -32,7 +32,9 @@ UNPROVED = [
     "validated on the implementation only",
     "floating-point behaviour of spend() next to the ceiling (1e-9 / 1e-15 slacks of the property) is validated, not proved",
 ]
-RULE = ("(a) accountant states generated from the seed: ceilings (inf, 1, 0.5, 3, log-uniform 1e-3..100, 0) x delta ceilings "
+RULE = ("(t) numeric types: states whose ceilings, slack and spends are given as np.float32/float16/float64/longdouble "
+        "(quantised first): remaining(k) must be bit-identical to that of the accountant given the same reals as Python floats "
+        "and pass the spend-back tests on a typed copy too; (a) accountant states generated from the seed: ceilings (inf, 1, 0.5, 3, log-uniform 1e-3..100, 0) x delta ceilings "
         "(0, tiny, 0.5, uniform, 1) x slacks (0, fractions of the delta ceiling), histories of 0..50 accepted spends "
         "(random sizes, zero-epsilon spends, spends of remaining(j) itself so that exhausted and nearly exhausted budgets "
         "occur), k in 1..20; remaining(k) is computed by the real accountant and by the Lean model on doubles, then the "
@@ -114,7 +116,7 @@ FIXED = [
 
 # ---------------------------------------------------------------- direct checks on the implementation
 
-def check_state(state, k, extra=None, live_rem=None):
+def check_state(state, k, extra=None, live_rem=None, live_sig=None, live_desc="the long-lived accountant's"):
     """All C18 clauses on one accountant state.  Returns (list of (signature, what), info).
     With `live_rem` (what a long-lived accountant in this state returned from remaining(k)): that value must be
     bit-identical to what the re-constructed copy returns, and it is the value that gets the spend-back tests."""
@@ -130,7 +132,7 @@ def check_state(state, k, extra=None, live_rem=None):
     info = {"remaining": (er, dr)}
     if live_rem is not None:
         if tuple(live_rem) != (er, dr):
-            out.append((SIG_STALE, f"ceiling=({ce!r},{cd!r}) slack={slack!r} {len(spent)} spends: the long-lived accountant's "
+            out.append((live_sig or SIG_STALE, f"ceiling=({ce!r},{cd!r}) slack={slack!r} {len(spent)} spends: {live_desc} "
                                    f"remaining({k}) = {tuple(live_rem)!r} but an accountant re-constructed from the same ceilings, "
                                    f"slack and spent_budget returns ({er!r}, {dr!r})"))
         er, dr = float(live_rem[0]), float(live_rem[1])
@@ -153,7 +155,7 @@ def check_state(state, k, extra=None, live_rem=None):
             out.append((SIG_DELTA_ULP, f"{here}: delta exceeds the delta ceiling by {dr - cd:.3e} (rounding of the closed form)"))
         else:
             out.append(("C18:bounds:delta", f"{here}: delta outside [0, ceiling]"))
-    if any(sig not in (SIG_DELTA_ULP, SIG_STALE) for sig, _ in out):
+    if any(sig not in (SIG_DELTA_ULP, SIG_STALE, live_sig) for sig, _ in out):
         return out, info
 
     min_eps = 0.0 if math.isinf(ce) else ce * 1e-14
@@ -278,6 +280,108 @@ def run_live(seq):
     return state, last[0], last[1]
 
 
+# ---------------------------------------------------------------- numeric types
+
+WRAPS = {"f32": lambda v: np.float32(v), "f16": lambda v: np.float16(v), "f64": lambda v: np.float64(v),
+         "ld": lambda v: np.longdouble(v)}
+SIG_TYPED = "C18:numeric-type:remaining"
+
+
+def q_of(wrap, v):
+    with np.errstate(all="ignore"):
+        if wrap == "f32":
+            return float(np.float32(v))
+        if wrap == "f16":
+            return float(np.float16(v))
+    return float(v)
+
+
+def typed_build(wrap, ce, cd, slack, spent, strict=False):
+    """an accountant that receives every number in the wrap's type; returns (accountant, spends it accepted)"""
+    W = WRAPS[wrap]
+    a = quiet(dp.BudgetAccountant, W(ce), W(cd), W(slack))
+    kept = []
+    for e, d in spent:
+        try:
+            quiet(a.spend, W(e), W(d))
+            kept.append((e, d))
+        except ValueError:
+            if strict:
+                raise
+    return a, kept
+
+
+def typed_state(wrap, state):
+    """the state with every number rounded to one the type represents exactly, and only the spends a typed accountant
+    accepts (None when the state does not survive the rounding)"""
+    ce, cd, slack, spent = state
+    if math.isinf(ce):
+        return None
+    ce, cd, slack = q_of(wrap, ce), q_of(wrap, cd), q_of(wrap, slack)
+    if not (0 < ce < math.inf) or slack > cd:
+        return None
+    qs = []
+    for e, d in spent:
+        e, d = q_of(wrap, e), q_of(wrap, d)
+        # `0 < epsilon < ceiling*1e-14` is evaluated by numpy in the narrow type for a narrow epsilon: stay clear of it
+        if (e == 0 and d == 0) or (0 < e < ce * 1e-9) or not (0 <= d <= 1):
+            continue
+        qs.append((e, d))
+    try:
+        _, kept = typed_build(wrap, ce, cd, slack, qs)
+        make(ce, cd, slack, kept)                  # the plain-float copy must accept the same history
+    except ValueError:
+        return None
+    return (ce, cd, slack, kept)
+
+
+def check_typed(wrap, state, k):
+    """remaining(k) of an accountant given narrow/wide numpy numbers = remaining(k) of the accountant given the same real
+    numbers as Python floats (bit for bit), and it passes the spend-back tests on both"""
+    ce, cd, slack, spent = state
+    try:
+        T, _ = typed_build(wrap, ce, cd, slack, spent, strict=True)
+        rem = quiet(T.remaining, k)
+    except Exception as ex:  # noqa
+        return [("C18:numeric-type:raises", f"ceiling=({ce!r},{cd!r}) slack={slack!r} {len(spent)} spends given as {wrap}: "
+                                            f"construction/remaining({k}) raised {type(ex).__name__}: {str(ex)[:80]}")]
+    rem = (float(rem[0]), float(rem[1]))
+    viol, _ = check_state(state, k, None, live_rem=rem, live_sig=SIG_TYPED,
+                          live_desc=f"an accountant that was given every number as {wrap} returns")
+    er, dr = rem
+    if not viol and ce * 1e-12 < er <= ce and 0 <= dr <= cd + 1e-15:
+        C, _ = typed_build(wrap, ce, cd, slack, spent, strict=True)
+        for i in range(k):
+            try:
+                quiet(C.spend, er * (1 - 1e-9), max(0.0, dr - 1e-15))
+            except Exception as ex:  # noqa
+                viol.append(("C18:numeric-type:spendable", f"ceiling=({ce!r},{cd!r}) slack={slack!r} {len(spent)} spends, all given as "
+                                                           f"{wrap}: remaining({k})=({er!r},{dr!r}) but spend #{i + 1} of "
+                                                           f"({er * (1 - 1e-9)!r}, {max(0.0, dr - 1e-15)!r}) raised {type(ex).__name__}"))
+                break
+    return viol
+
+
+def typed_stream(ctx):
+    r = ctx.fork("typed")
+    fixed = [("f32", (0.3, 0.5, 0.0, [(0.125, 0.25)]), 3), ("f32", (1.0, 0.5, 0.1, [(0.01, 1e-7)] * 40), 7),
+             ("f16", (2.0, 0.25, 0.0, [(0.5, 0.0), (0.25, 0.125)]), 2)]
+    n_ok = 0
+    for i in range(len(fixed) + ctx.budget(120, 2000)):
+        if i < len(fixed):
+            wrap, st, k = fixed[i]
+        else:
+            wrap, st, k = r.choice(["f32", "f32", "f32", "f16", "ld", "f64"]), gen_state(r), r.randint(1, 20)
+        st = typed_state(wrap, st)
+        if st is None:
+            continue
+        n_ok += 1
+        for sig, what in check_typed(wrap, st, k):
+            ctx.violation(sig, what, {"typed": wrap, "state": list(st), "k": k})
+        ctx.case(("typed", wrap, f2b(st[0]), f2b(st[1]), f2b(st[2]), hash(tuple(st[3])), k) if st[3] and wrap != "f64" else None)
+    ctx.count("typed_states", n_ok)
+
+
 def gen_extra(r, state, rem):
     ce, cd, slack, spent = state
     er, dr = rem
@@ -296,6 +400,9 @@ def gen_extra(r, state, rem):
 # ---------------------------------------------------------------- entry points
 
 def check(ctx):
+    typed_stream(ctx)
+    if ctx.searching and ctx.violations:
+        return
     r = ctx.fork("states")
     n = ctx.budget(1200, 20000)
     if ctx.searching:
@@ -414,6 +521,10 @@ def replay(ctx, data):
     from ..core import unjson_float as u
     d = data["data"]
     extra = tuple(float(u(x)) for x in d["extra"]) if d.get("extra") else None
+    if d.get("typed"):
+        ce, cd, slack, spent = d["state"]
+        state = (float(u(ce)), float(u(cd)), float(u(slack)), [(float(u(e)), float(u(x))) for e, x in spent])
+        return bool(check_typed(d["typed"], state, int(d["k"])))
     if d.get("live"):
         def fix(x):
             return [fix(y) for y in x] if isinstance(x, list) else u(x)
